@@ -60,13 +60,25 @@ def stab_case(c):
     cfg = cfg.aset("time", dt * nsteps)
     mat = fdtdx.Material(permittivity=c.get("eps", 1.0), dispersion=fdtdx.DispersionModel(poles=tuple(mk_pole(p, dt) for p in c["poles"])),
                          **({"electric_conductivity": float(c["sigma"])} if c.get("sigma") else {}))
-    vol = fdtdx.SimulationVolume(partial_grid_shape=(4, 4, 4), material=mat)
+    extra = []
+    if c.get("layered"):
+        # the dispersive medium is a sphere (multi-material object) in a plain volume, and a plain block is placed AFTER it through its middle:
+        # the block's cells are non-dispersive cells of the accepted scene
+        n = int(c["layered"])
+        vol = fdtdx.SimulationVolume(partial_grid_shape=(n, n, n), material=fdtdx.Material(permittivity=float(c.get("bg_eps", 1.0))))
+        sph = fdtdx.Sphere(name="sphere", materials={"m": mat}, material_name="m", radius=(n / 3.0) * 5e-8)
+        slot = fdtdx.UniformMaterialObject(name="slot", partial_grid_shape=(n, max(2, n // 3), max(2, n // 3)), material=fdtdx.Material(permittivity=float(c.get("slot_eps", 1.0))))
+        extra = [sph, slot]
+    else:
+        vol = fdtdx.SimulationVolume(partial_grid_shape=(4, 4, 4), material=mat)
     bc = fdtdx.BoundaryConfig.from_uniform_bound(thickness=1, override_types={f: c.get("wall", "periodic") for f in FACES})
     bd, cons = fdtdx.boundary_objects_from_config(bc, vol)
+    for o in extra:
+        cons.append(o.place_at_center(vol, axes=(0, 1, 2)))
     with warnings.catch_warnings(record=True) as wl:
         warnings.simplefilter("always")
         try:
-            oc, arrays, params, cfg, _ = fdtdx.place_objects(object_list=[vol, *bd.values()], config=cfg, constraints=cons, key=KEY)
+            oc, arrays, params, cfg, _ = fdtdx.place_objects(object_list=[vol, *bd.values(), *extra], config=cfg, constraints=cons, key=KEY)
             arrays, oc, _ = fdtdx.apply_params(arrays, oc, params, KEY)
         except Exception as e:
             return {"rejected": type(e).__name__ + ": " + str(e)[:150]}
